@@ -625,6 +625,13 @@ class Interp(object):
             if not broke:
                 self.block(st.orelse, state, trace)
             return
+        if isinstance(st, ast.Expr) and isinstance(st.value, ast.YieldFrom):
+            # yield from E  ==  for v in E: yield v
+            v = ast.Name(id='_yielded', ctx=ast.Store())
+            loop = ast.For(target=v, iter=st.value.value, body=[ast.Expr(value=ast.Yield(value=ast.Name(id='_yielded', ctx=ast.Load())))], orelse=[])
+            ast.copy_location(loop, st)
+            ast.fix_missing_locations(loop)
+            return self.stmt(loop, state, trace)
         if isinstance(st, ast.With):
             # the context managers of this repository (files, zip members) do not alter control flow: the body runs once
             for item in st.items:
